@@ -1,0 +1,78 @@
+//go:build verif
+
+package pool
+
+import "context"
+
+// Verification hooks for property C17 (add-only; compiled only with -tags verif).
+// They expose unexported entry points and state; they do not change behaviour.
+
+// VerifSetPeerHealth sets the health state the probe loop would have reached
+// for nodeID (the health map otherwise only changes through checkPeer's HTTP probe).
+func (p *PeerPool) VerifSetPeerHealth(nodeID string, healthy bool) {
+	p.healthMu.Lock()
+	defer p.healthMu.Unlock()
+	h, ok := p.peerHealthMap[nodeID]
+	if !ok {
+		h = &peerHealth{healthy: true}
+		p.peerHealthMap[nodeID] = h
+	}
+	h.healthy = healthy
+	if healthy {
+		h.consecutiveFailures = 0
+	} else if h.consecutiveFailures < p.healthThreshold {
+		h.consecutiveFailures = p.healthThreshold
+	}
+}
+
+// VerifRanked returns a copy of the ranked fallback list for a subscriber.
+func (p *PeerPool) VerifRanked(subscriberID string) []string {
+	p.mu.RLock()
+	nodes := p.peerNodes
+	p.mu.RUnlock()
+	r := rendezvousRanked(subscriberID, nodes)
+	out := make([]string, len(r))
+	copy(out, r)
+	return out
+}
+
+// VerifHealthyOwner returns the node Allocate/Release would use for a subscriber.
+func (p *PeerPool) VerifHealthyOwner(subscriberID string) string {
+	return p.getHealthyOwner(subscriberID)
+}
+
+// VerifCheckPeer runs one real health probe against nodeID.
+func (p *PeerPool) VerifCheckPeer(ctx context.Context, nodeID string) {
+	p.checkPeer(ctx, nodeID)
+}
+
+// VerifPeerNodes returns a copy of the node list used for hashing.
+func (p *PeerPool) VerifPeerNodes() []string {
+	p.mu.RLock()
+	defer p.mu.RUnlock()
+	out := make([]string, len(p.peerNodes))
+	copy(out, p.peerNodes)
+	return out
+}
+
+// VerifLocalHolds reports whether this node's local pool holds an allocation for subscriberID.
+func (p *PeerPool) VerifLocalHolds(subscriberID string) (string, bool) {
+	p.localPool.mu.Lock()
+	defer p.localPool.mu.Unlock()
+	ip, ok := p.localPool.allocations[subscriberID]
+	if !ok {
+		return "", false
+	}
+	return ip.String(), true
+}
+
+// VerifLocalSubscribers returns the subscriber ids held in this node's local pool.
+func (p *PeerPool) VerifLocalSubscribers() []string {
+	p.localPool.mu.Lock()
+	defer p.localPool.mu.Unlock()
+	out := make([]string, 0, len(p.localPool.allocations))
+	for s := range p.localPool.allocations {
+		out = append(out, s)
+	}
+	return out
+}
